@@ -4,3 +4,6 @@ import ShkModel.Props.C18
 import ShkModel.Props.C02
 import ShkModel.Props.C08
 import ShkModel.Props.C11
+import ShkModel.Props.C03
+import ShkModel.Props.C06
+import ShkModel.Props.C17
